@@ -161,6 +161,8 @@ func runC06(p *Prog, r *Report) {
 	r.Fn(FName(b.copyFn))
 	// ---- R5: the header copy the copy routine relies on gives the copy its own value slices ----
 	checkCopyHeadersHelper(p, r, "C06.R5", true, false)
+	// ---- R6: the debug dump made of the incoming request before buffering does not alter it ----
+	checkDumpReadOnly(p, r, "C06.R6")
 	// ---- R1 ----
 	isCopy := func(v ssa.Value) (*ssa.Call, bool) {
 		c, ok := stripConv(v).(*ssa.Call)
@@ -469,6 +471,29 @@ func runC07(p *Prog, r *Report) {
 		}
 		r.Check(!touches, "C07.R1", "buffer.(*bufferWriter)."+mn+": never touches the client writer", p.FuncPos(m), "no access to responseWriter", "the recorder's "+mn+" reaches the client writer: output of a discarded attempt can leak to the client")
 	}
+	// ... and everything the recorder accumulates is new with it: its map / slice / pointer-to-struct fields are
+	// initialised, in the same iteration, with values made in that iteration (a header map shared by all
+	// attempts hands the headers of discarded attempts to the client)
+	if st, ok := b.rec.Underlying().(*types.Struct); ok && len(inLoop) > 0 {
+		for i := 0; i < st.NumFields(); i++ {
+			f := st.Field(i)
+			if _, isMap := f.Type().Underlying().(*types.Map); !isMap {
+				continue
+			}
+			okF := false
+			pos := p.InstrPos(b.recAlloc)
+			for _, s2 := range FieldStores(fn, b.rec, f.Name()) {
+				if fa, ok := s2.Addr.(*ssa.FieldAddr); !ok || fa.X != ssa.Value(b.recAlloc) {
+					continue
+				}
+				pos = p.InstrPos(s2)
+				if mm, ok := stripConv(s2.Val).(*ssa.MakeMap); ok && inLoop[mm.Block()] {
+					okF = true
+				}
+			}
+			r.Check(okF, "C07.R1", sn+": the recorder's "+f.Name()+" map is new for every attempt", pos, "make(...) inside the loop iteration", "the recorder's "+f.Name()+" map is not created in the iteration that creates the recorder: what a discarded attempt put there is relayed with the final attempt")
+		}
+	}
 	r.Check(len(inLoop) == 0 || inLoop[b.recAlloc.Block()], "C07.R1", sn+": a new recorder per attempt", p.InstrPos(b.recAlloc), "the recorder is allocated inside the loop iteration", "the recorder is allocated once outside the retry loop: status/headers/body of discarded attempts accumulate")
 	okW := len(inLoop) == 0 || inLoop[b.newW.Block()]
 	r.Check(okW, "C07.R1", sn+": a new response buffer per attempt", p.InstrPos(b.newW), "NewWriterOnce is called inside the loop iteration", "the response buffer is created once outside the retry loop")
@@ -642,6 +667,7 @@ func runC07(p *Prog, r *Report) {
 	c07ImplicitStatus(p, r, b)
 
 	// ---- R4 empty body ----
+	checkSingleBodySink(p, r, "C07.R4", b)
 	wr := p.MethodOf(b.rec, "Write")
 	written := map[string]bool{}
 	if wr != nil {
@@ -845,6 +871,7 @@ func c07Bound(p *Prog, r *Report, b *bufInfo, inLoop map[*ssa.BasicBlock]bool) {
 	hdr := ctr.Block()
 	K := int64(-1)
 	okGuard := false
+	var giveUp []Edge // edges on which an attempt is delivered without (further) consulting the retry expression
 	for _, ifi := range ifs(fn) {
 		cmp, ok := CanonCmp(BuildExpr(p, ifi.Cond, nil))
 		if !ok || !inLoop[ifi.Block()] {
@@ -885,6 +912,7 @@ func c07Bound(p *Prog, r *Report, b *bufInfo, inLoop map[*ssa.BasicBlock]bool) {
 			}
 			if all {
 				K, okGuard = bound, true
+				giveUp = append(giveUp, Edge{ifi.Block(), 1 - k})
 			}
 		}
 	}
@@ -907,6 +935,52 @@ func c07Bound(p *Prog, r *Report, b *bufInfo, inLoop map[*ssa.BasicBlock]bool) {
 		}
 		for _, st := range FieldStores(fn, ctxT, "responseCode") {
 			r.Check(b.recField(st.Val, "code"), "C07.R5", sn+": retry expression sees this attempt's status", p.InstrPos(st), "context.responseCode = bw.code", "the retry context's status is not this attempt's recorded status")
+		}
+	}
+	// the retry expression decides: an attempt is delivered (relay WriteHeader on the client writer) only when no
+	// retry condition is configured, the attempt bound is exhausted, or the expression evaluated to false for
+	// THIS attempt; any other way to the delivery skips retries the expression asks for
+	{
+		isPred := func(v ssa.Value) bool { return isFieldLoad(stripConv(v), b.typ, "retryPredicate") }
+		for _, t := range NilTests(fn, isPred) {
+			giveUp = append(giveUp, t.Nil)
+		}
+		var predCalls []ssa.Value
+		for _, c := range Calls(fn) {
+			if call, ok := c.(*ssa.Call); ok && !call.Common().IsInvoke() && call.Common().StaticCallee() == nil && isPred(call.Common().Value) {
+				predCalls = append(predCalls, call)
+			}
+		}
+		for _, t := range BoolTests(fn, func(v ssa.Value) bool {
+			for _, c := range predCalls {
+				if v == c {
+					return true
+				}
+			}
+			return false
+		}) {
+			giveUp = append(giveUp, t.False)
+		}
+		var relay ssa.Instruction
+		for _, c := range Calls(fn) {
+			if cc, ok := IsInvoke(c, "WriteHeader"); ok && cc.Value == ssa.Value(b.w) {
+				relay = c
+			}
+		}
+		if relay != nil && len(predCalls) > 0 {
+			notGiveUp := func(e Edge) bool {
+				for _, g := range giveUp {
+					if g.B == e.B && g.K == e.K {
+						return false
+					}
+				}
+				return true
+			}
+			other := Reach(fn, b.handler, nil, notGiveUp)[relay] && feasiblePathExists(fn, b.handler, relay, notGiveUp)
+			r.Paths++
+			r.Check(!other, "C07.R5", sn+": an attempt is delivered only when the retry expression says so (or none / bound exhausted)", p.InstrPos(relay),
+				"the relay is unreachable from the handler once the edges predicate == nil, counter > K and predicate(...) == false are deleted",
+				"an attempt can be delivered to the client on a path that neither found the retry expression false nor exhausted the bound: retries the expression asks for are skipped")
 		}
 	}
 	// nil predicate: no second invocation
@@ -1109,6 +1183,7 @@ func runC15(p *Prog, r *Report) {
 			}
 		}
 	}
+	checkSingleBodySink(p, r, "C15.R2", b)
 	r.Check(okWE, "C15.R2", "buffer.(*bufferWriter).Write: records the buffer's write error", "-", "writeError = error of the underlying Write", "the recorder drops the error of the underlying (size-limited) write")
 	var relayWH *ssa.Call
 	for _, c := range Calls(fn) {
@@ -1167,6 +1242,18 @@ func runC15(p *Prog, r *Report) {
 		}
 		r.Check(okRel, "C15.R3", "buffer.(*bufferWriter).Close: takes the reader and closes it (the only way the spill file is removed)", p.FuncPos(closeFn),
 			"Reader() on every path; on its success edge the reader is closed", "the recorder's Close does not obtain and close the WriterOnce's reader: WriterOnce.Close only closes the descriptor, the temporary file stays")
+		// WriterOnce.Close is called by the release routine only (an earlier Close, e.g. from Write on the first
+		// over-limit error, closes the descriptor the later Reader() must rewind: the spill file is never removed)
+		for _, m := range p.Methods(b.rec) {
+			if m == closeFn {
+				continue
+			}
+			for _, c := range Calls(m) {
+				if cc, ok := IsInvoke(c, "Close"); ok && isFieldLoad(cc.Value, b.rec, "buffer") {
+					r.Fail("C15.R3", "buffer.(*bufferWriter)."+m.Name()+": closes the response buffer outside the release routine", p.InstrPos(c), "the WriterOnce is closed before the release routine took its reader: for a spilled body the reader can no longer be obtained and the temporary file stays")
+				}
+			}
+		}
 		if rd != nil && c15ReaderNeedsOpenFile(p) {
 			// derived from the dependency: WriterOnce.Close closes the descriptor that Reader() has to rewind, so a
 			// Reader() issued after Close() fails for a spilled body and the clean-up closure is never obtained
@@ -1654,4 +1741,166 @@ func fullRangeLoopOver(in ssa.Instruction, src ssa.Value) (bool, string) {
 		}
 	}
 	return true, ""
+}
+
+// checkDumpReadOnly (C06.R6 / C20.R7): utils.DumpHTTPRequest, which every middleware calls on the live
+// request when verbose/debug logging is on, only reads it. Its serialisable copy shares the header
+// map, URL and form values with the request (shallow by design), so any mutation on the dump path —
+// a map update or delete, a mutating method of http.Header / url.Values, a store that is not the
+// initialisation of the freshly allocated copy — changes what the protected handler receives.
+func checkDumpReadOnly(p *Prog, r *Report, rule string) {
+	root := p.Func("utils", "DumpHTTPRequest")
+	if root == nil {
+		r.Anchor(rule, "utils.DumpHTTPRequest", "function not found")
+		return
+	}
+	n := 0
+	for _, fn := range reachableStatic(p, root) {
+		if !p.InModule(fn) || fn.Blocks == nil {
+			continue
+		}
+		n++
+		r.Fn(FName(fn))
+		bad, pos := "", p.FuncPos(fn)
+		for _, b := range fn.Blocks {
+			for _, in := range b.Instrs {
+				switch x := in.(type) {
+				case *ssa.MapUpdate:
+					if !freshContainer(fn, x.Map, 0) {
+						bad, pos = "map update", p.InstrPos(in)
+					}
+				case *ssa.Store:
+					fresh := false
+					switch a := x.Addr.(type) {
+					case *ssa.Alloc:
+						fresh = true
+					case *ssa.FieldAddr:
+						_, fresh = a.X.(*ssa.Alloc)
+					case *ssa.IndexAddr:
+						if al, ok := a.X.(*ssa.Alloc); ok && al != nil {
+							fresh = true
+						}
+						if _, ok := a.X.(*ssa.MakeSlice); ok {
+							fresh = true
+						}
+					}
+					if !fresh {
+						bad, pos = "store through "+truncate(x.Addr.String(), 60), p.InstrPos(in)
+					}
+				case *ssa.Call:
+					cc := x.Common()
+					if bi, ok := cc.Value.(*ssa.Builtin); ok && bi.Name() == "delete" && !freshContainer(fn, cc.Args[0], 0) {
+						bad, pos = "delete from a map", p.InstrPos(in)
+					}
+					if o := calleeObj(cc); o != nil && o.Pkg() != nil && len(cc.Args) > 0 {
+						switch o.Pkg().Path() + "." + objName(o) {
+						case "net/http.Header.Del", "net/http.Header.Set", "net/http.Header.Add", "net/url.Values.Del", "net/url.Values.Set", "net/url.Values.Add":
+							if !freshContainer(fn, cc.Args[0], 0) {
+								bad, pos = objName(o), p.InstrPos(in)
+							}
+						}
+					}
+				}
+			}
+		}
+		r.Check(bad == "", rule, "request dump "+FName(fn)+": reads the request only", pos, "no map update, delete, mutating header/values method or store outside the fresh copy",
+			"the debug dump mutates shared request state ("+bad+"): its copy shares the header map / URL with the live request, so with verbose logging on the protected handler receives an altered request")
+	}
+	r.Floor(rule, n, 2, "functions on the request-dump path")
+}
+
+
+// freshContainer: the map value v was made in this function (make, a Clone() call) or is loaded from a
+// field of a freshly allocated struct every store to which stores such a value.
+func freshContainer(fn *ssa.Function, v ssa.Value, d int) bool {
+	if d > 3 {
+		return false
+	}
+	v = stripConv(v)
+	switch x := v.(type) {
+	case *ssa.MakeMap:
+		return true
+	case *ssa.Call:
+		if o := calleeObj(x.Common()); o != nil && o.Name() == "Clone" && o.Pkg() != nil && (o.Pkg().Path() == "net/http" || o.Pkg().Path() == "maps") {
+			return true
+		}
+	case *ssa.UnOp:
+		fa, ok := x.X.(*ssa.FieldAddr)
+		if !ok {
+			return false
+		}
+		if _, isAlloc := fa.X.(*ssa.Alloc); !isAlloc {
+			return false
+		}
+		n := 0
+		for _, b := range fn.Blocks {
+			for _, in := range b.Instrs {
+				st, ok := in.(*ssa.Store)
+				if !ok {
+					continue
+				}
+				sa, ok := st.Addr.(*ssa.FieldAddr)
+				if !ok || sa.X != fa.X || sa.Field != fa.Field {
+					continue
+				}
+				n++
+				if !freshContainer(fn, st.Val, d+1) {
+					return false
+				}
+			}
+		}
+		return n > 0
+	}
+	return false
+}
+
+// checkSingleBodySink: every byte of the captured response enters the response buffer through the
+// recorder's Write, which keeps the accounting the rest of ServeHTTP relies on (bytes written > 0,
+// the first write error). A second method that feeds the buffer (WriteString, ReadFrom, ...) is picked
+// by io.WriteString / io.Copy in preference to Write and bypasses both.
+func checkSingleBodySink(p *Prog, r *Report, rule string, b *bufInfo) {
+	var bufFields []string
+	if st, ok := b.rec.Underlying().(*types.Struct); ok {
+		for i := 0; i < st.NumFields(); i++ {
+			if n, ok := st.Field(i).Type().(*types.Named); ok && n.Obj().Name() == "WriterOnce" {
+				bufFields = append(bufFields, st.Field(i).Name())
+			}
+		}
+	}
+	if len(bufFields) != 1 {
+		r.Anchor(rule, "buffer.bufferWriter: response buffer field (multibuf.WriterOnce)", fmt.Sprintf("found %v", bufFields))
+		return
+	}
+	bf := bufFields[0]
+	isBuf := func(v ssa.Value) bool { return isFieldLoad(stripConv(v), b.rec, bf) }
+	var sinks []string
+	okAll := true
+	pos := "-"
+	for _, m := range p.Methods(b.rec) {
+		for _, c := range Calls(m) {
+			cc := c.Common()
+			feeds := false
+			if cc.IsInvoke() && isBuf(cc.Value) {
+				switch cc.Method.Name() {
+				case "Write", "WriteString", "ReadFrom":
+					feeds = true
+				}
+			}
+			if o := calleeObj(cc); o != nil && o.Pkg() != nil && !cc.IsInvoke() && len(cc.Args) > 0 && isBuf(cc.Args[0]) {
+				switch o.Pkg().Path() {
+				case "io", "fmt", "bufio":
+					feeds = true
+				}
+			}
+			if !feeds {
+				continue
+			}
+			sinks = append(sinks, m.Name())
+			if m.Name() != "Write" {
+				okAll, pos = false, p.InstrPos(c)
+			}
+		}
+	}
+	r.Check(okAll && len(sinks) > 0, rule, "buffer.bufferWriter: the response buffer is fed only by Write", pos, "only Write writes into the WriterOnce",
+		fmt.Sprintf("the response buffer is also fed by %v: a handler using io.WriteString / io.Copy reaches that method instead of Write, the byte count and the write error are not recorded (empty body delivered, size limit not enforced)", sinks))
 }
